@@ -545,4 +545,126 @@ def kernelStep (n : Nat) (slots : List Int) (rels : List Relation) (eq : List Na
     let d ← tryFactor n ab.1 ab.2
     pure (ab.1, ab.2, d)
 
+/-! ### `final_step` around the kernel solver
+
+`finalStep n fb rels kernel isPrime`: `fb` = the primes of the factor base in index order
+(`fb.idx(p)` = position), `kernel` = the vectors returned by `kernel_gauss`/`kernel_lanczos` as
+lists of indices into the filtered relations (an INPUT: the solvers are property C14),
+`isPrime` = `crate::pseudoprime` (property C06). Returns (slots, number of filtered relations,
+divisors). -/
+
+/-- `fb.idx(f as u32)` -/
+def fbIdx (fb : List Nat) (f : Int) : Option Nat :=
+  let v := (f % (W32 : Int)).toNat
+  let rec go : List Nat → Nat → Option Nat
+    | [], _ => none
+    | p :: t, i => if p = v then some i else go t (i + 1)
+  go fb 0
+
+def modifyAt {α : Type} (f : α → α) : Nat → List α → List α
+  | _, [] => []
+  | 0, a :: t => f a :: t
+  | i + 1, a :: t => a :: modifyAt f i t
+
+/-- registration of one factor in `occs` -/
+def occStep (fb : List Nat) (occs : List (Int × Nat)) (f : Int) (k : Nat) : M (List (Int × Nat)) :=
+  if f = -1 then pure (modifyAt (fun o => (-1, if k % 2 = 1 then o.2 + 1 else o.2)) 0 occs)
+  else
+    match fbIdx fb f with
+    | some i => pure (modifyAt (fun o => (f, if k % 2 = 1 then o.2 + 1 else o.2)) (i + 1) occs)
+    | none => if k % 2 = 0 then pure occs else throw .panic     -- assert!(k % 2 == 0, ..)
+
+def occFactors (fb : List Nat) : List (Int × Nat) → List (Int × Nat) → M (List (Int × Nat))
+  | [], occs => pure occs
+  | (f, k) :: t, occs => do
+    let o ← occStep fb occs f k
+    occFactors fb t o
+
+def occRels (fb : List Nat) : List Relation → List (Int × Nat) → M (List (Int × Nat))
+  | [], occs => pure occs
+  | r :: t, occs => do
+    let o ← occFactors fb r.factors occs
+    occRels fb t o
+
+/-- stable insertion for `sort_by_key(|&(_, k)| -(k as i64))` : decreasing count, ties in order -/
+def insertOcc (x : Int × Nat) : List (Int × Nat) → List (Int × Nat)
+  | [] => [x]
+  | y :: t => if y.2 ≥ x.2 then y :: insertOcc x t else x :: y :: t
+
+def sortOccs (l : List (Int × Nat)) : List (Int × Nat) := l.foldl (fun acc x => insertOcc x acc) []
+
+def findPos {α : Type} (p : α → Bool) : List α → Nat → Option Nat
+  | [], _ => none
+  | a :: t, i => if p a then some i else findPos p t (i + 1)
+
+/-- the closure `get_index` (idxs default to 0; `debug_assert!(occs[i].0 == f)`) -/
+def getIndex (fb : List Nat) (occs : List (Int × Nat)) (f : Int) : M (Option Nat) :=
+  let look : M (Option Nat) :=
+    let i := (findPos (fun o => o.1 == f) occs 0).getD 0
+    match occs[i]? with
+    | none => throw .panic                                     -- occs[i]
+    | some o => if o.1 = f then pure (some i) else throw .debug
+  if f = -1 then look
+  else match fbIdx fb f with
+    | none => pure none
+    | some _ => look
+
+/-- one relation of the `'skiprel` loop: `none` = skipped -/
+def filterFactors (fb : List Nat) (occs : List (Int × Nat)) (nfactors : Nat) :
+    List (Int × Nat) → M Bool
+  | [] => pure true
+  | (f, k) :: t =>
+    if k % 2 = 0 then filterFactors fb occs nfactors t
+    else do
+      let i ← getIndex fb occs f
+      match i with
+      | none => throw .panic                                   -- get_index(f).unwrap()
+      | some idx => if idx < nfactors then filterFactors fb occs nfactors t else pure false
+
+def filterRels (n : Nat) (fb : List Nat) (occs : List (Int × Nat)) (nfactors : Nat) :
+    List Relation → M (List Relation)
+  | [] => pure []
+  | r :: t => do
+    let keep ← filterFactors fb occs nfactors r.factors
+    let rest ← filterRels n fb occs nfactors t
+    if keep then pure ({ r with x := if r.x > n then r.x % n else r.x } :: rest) else pure rest
+
+def checkRels (n : Nat) : List Relation → M Unit
+  | [] => pure ()
+  | r :: t =>
+    match verify n r with                                      -- debug_assert!(r.verify(n))
+    | .ok true => checkRels n t
+    | _ => throw .debug
+
+def kernelLoop (n : Nat) (slots : List Int) (rels : List Relation) (isPrime : Nat → Bool) :
+    List (List Nat) → List Nat → M (List Nat)
+  | [], divs => pure divs
+  | eq :: t, divs => do
+    let r ← kernelStep n slots rels eq
+    match r.2.2 with
+    | none => kernelLoop n slots rels isPrime t divs
+    | some (p, q) =>
+      if isPrime p && isPrime q then pure (divs ++ [p, q])
+      else kernelLoop n slots rels isPrime t (divs ++ [p, q])
+
+def insertNat (x : Nat) : List Nat → List Nat
+  | [] => [x]
+  | y :: t => if x < y then x :: y :: t else if x = y then y :: t else y :: insertNat x t
+
+/-- `sort_unstable(); dedup()` -/
+def sortDedup (l : List Nat) : List Nat := l.foldl (fun acc x => insertNat x acc) []
+
+def finalStep (n : Nat) (fb : List Nat) (rels : List Relation) (kernel : List (List Nat))
+    (isPrime : Nat → Bool) : M (List Int × Nat × List Nat) := do
+  checkRels n rels
+  let occs0 ← occRels fb rels ((List.range (fb.length + 1)).map fun _ => ((0 : Int), 0))
+  let occs := sortOccs (occs0.filter fun o => o.1 != 0)
+  let nfactors := (findPos (fun o => decide (o.2 ≤ 1)) occs 0).getD occs.length
+  let filt ← filterRels n fb occs nfactors rels
+  -- kernel computation happens here (input)
+  if n % 2 = 0 ∨ bits n > 512 then throw .panic               -- ZmodN::new(*n)
+  let slots := occs.map (·.1)
+  let divs ← kernelLoop n slots filt isPrime kernel []
+  pure (slots, filt.length, sortDedup divs)
+
 end Ymq.Relations
